@@ -223,7 +223,7 @@ def main():
         # a leading comment line is not an entry: put it after the first header instead
         first, rest = txt.split('\n', 1)
         h, rest2 = rest.split('\n', 1)
-        txt = h + '\n' + first + '\n' + rest2
+        txt = '//! scope (ops_.*|numtraits.*)\n' + h + '\n' + first + '\n' + rest2
         if '--stdout' in sys.argv:
             sys.stdout.write(txt)
         else:
